@@ -85,6 +85,17 @@ def _conv(stmts: List[ast.stmt], repl) -> Tuple[List[ast.stmt], bool]:
             b, bt = _conv(st.body, repl)
             out.append(ast.With(items=st.items, body=b or [ast.Pass()]))
             return out, bt
+        if isinstance(st, ast.Try) and _contains_return(st) and i == len(stmts) - 1 and not any(_contains_return(x) for x in st.finalbody):
+            b, bt = _conv(st.body, repl)
+            hs = []
+            allt = bt
+            for h in st.handlers:
+                hb, ht = _conv(h.body, repl)
+                hs.append(ast.ExceptHandler(type=h.type, name=h.name, body=hb or [ast.Pass()]))
+                allt = allt and ht
+            o, ot = _conv(st.orelse, repl) if st.orelse else ([], True)
+            out.append(ast.Try(body=b or [ast.Pass()], handlers=hs, orelse=o, finalbody=st.finalbody))
+            return out, allt and (ot or not st.orelse)
         if isinstance(st, ast.Raise):
             out.append(st)
             return out, True
